@@ -308,6 +308,10 @@ def simple_hash_by_name(name):
             return int.from_bytes(hashlib.sha256(_as_bytes(key)).digest()[:8], "big")
     elif name == "falsy_sha":
         f = FalsyCallable(simple_hash_by_name("sha"))
+    elif name == "edges":  # values on the edges of the 32 / 64-bit ranges (every one a valid hash value)
+        def f(key, *a):
+            E = [0, 2 ** 64 - 1, 2 ** 63, 2 ** 63 - 1, 2 ** 32 - 1, 2 ** 32, 1, 2 ** 64 - 2, 0xFFFFFFFF00000000, 255, 256, 65535, 65536]
+            return E[hashlib.sha256(_as_bytes(key)).digest()[0] % len(E)]
     else:
         raise ValueError(name)
     _CACHE[key] = f
